@@ -292,21 +292,27 @@ def duration_from_secs(ex, v): return Adt('Duration', 0, [v * 1000])
 
 # ====================================================================== byte sources / sinks (byteorder + std::io on harness-owned buffers)
 def _sink(ex, w):
-    s_ = D(ex, w)
-    if isinstance(s_, Adt) and s_.name == 'VSink':
-        return s_
-    return s_
+    return D(ex, w)
 
 
 def sink_write(ex, w, items):
-    """returns number of bytes accepted or None for an I/O failure (VSink only)"""
+    """one `Write::write` call: returns the number of bytes accepted, or None for an I/O failure.
+    A sink type defined in Rust (harness fault-injection sink) is run through its interpreted `Write::write` impl."""
     s_ = _sink(ex, w)
     if isinstance(s_, VecV):
         s_.items.extend(items)
         return len(items)
-    if isinstance(s_, Adt) and s_.name == 'VSink':
-        # fields: [buf VecV, calls, fail_at, short]  -- harness-defined sink with fault injection
-        return vsink_write(ex, s_, items)
+    if isinstance(s_, Adt):
+        impl = ex.prog.traitimpl.get((s_.name, 'Write', 'write'))
+        if impl is None:
+            raise Unsupported('write to %s (no Write impl in the dumps)' % s_.name)
+        r = ex.run(impl, [ex.base_ref(w) if isinstance(w, Ref) else Ref(Cell(s_)), Ref(Cell(VecV(list(items))))])
+        if r.variant != 0:
+            return None
+        k = r.fields[0]
+        if is_sym(k):
+            k = ex.concretize(k, 0, len(items) + 1)
+        return k
     if isinstance(s_, SliceV):
         n = seq_len(ex, s_)
         if is_sym(n):
@@ -318,26 +324,6 @@ def sink_write(ex, w, items):
         ex.write(r, SliceV(s_.vec, s_.lo + k, s_.hi))
         return k
     raise Unsupported('write to %r' % (s_,))
-
-
-def vsink_write(ex, s_, items):
-    buf, calls, fail_at, short = s_.fields[0], s_.fields[1], s_.fields[2], s_.fields[3]
-    s_.fields[1] = calls + 1
-    # failure at a (possibly symbolic) call index
-    if fail_at is not None and not (isinstance(fail_at, int) and fail_at == 0xffffffff):
-        c = simp_bool(bv(fail_at, 32) == calls) if is_sym(fail_at) else (fail_at == calls)
-        if ex.branch(c):
-            return None
-    n = len(items)
-    if short and n > 1:
-        k = ex.fresh('u32', 'shortwrite')
-        ex.inputs.append((9000 + calls, 'u32', k))
-        ex.solver.add(z3.UGE(k, 1), z3.ULE(k, n))
-        kk = ex.concretize(k, 1, n + 1)
-        buf.items.extend(items[:kk])
-        return kk
-    buf.items.extend(items)
-    return n
 
 
 def io_err(kind):
@@ -487,6 +473,11 @@ def io_error_new(ex, *a): return io_err('Other')
 def any_downcast(ex, callee, r):
     g = generic_of(callee) or ''
     from .prog import head
+    if re.match(r'^[A-Z]\w?$', g):
+        g2 = ex.generic_arg(g)
+        if g2 is None:
+            raise Unsupported('cannot resolve generic parameter %s for downcast' % g)
+        g = g2
     want = head(g)
     rr = ex.base_ref(r)
     v = ex.read(rr)
